@@ -36,18 +36,19 @@ RULE = ('random LALR grammars (1-3 nonterminals, EBNF operators, nullable starts
 TRUSTED_BASE = ['the lexer, the LALR driver and Python re are oracles of the model (observed at run time, not modelled)',
                 '_scan control skeleton pinned by translator/gen_scan.py templates; constants regenerated',
                 'run-time observation by wrapping search_start, ParsingFrontend.parse_interactive, '
-                'ParserState.feed_token and BasicLexer.match']
+                'ParserState.feed_token and BasicLexer.match; the lexer / parser oracle tables come from an independent '
+                'driver (interactive parser + lexer run outside _scan) and must agree with what _scan itself lexed and fed']
 ASSUMPTIONS = ['H_stable (lexing a snippet alone yields the corresponding prefix of lexing the rest of the text, and '
                'conversely for accepted snippets) for scan_value_eq_parse / scan_longest / scan_no_miss; fails for '
                'greedy tokens crossing the snippet end (F8)',
                'H_head (at a search result the first token the lexer produces is not an ignored one) for scan_no_miss; '
-               'fails when an ignored terminal out-prioritises a real one at match_start (F8b)',
+               'fails when an ignored terminal out-prioritises a real one at match_start (F28)',
                'no look-around in terminals, no lexer callbacks, no postlex']
 
 IMPORTS = 'From LV Require Import Scan.Scan Scan.ScanCheck.'
 
 F8_KEY = 'F8:greedy-token-crosses-snippet-end'
-F8b_KEY = 'F8b:ignored-terminal-wins-at-match-start'
+F28_KEY = 'F28:scan-ignored-preferred-at-search-start'
 
 
 # ------------------------------------------------------------------------------------------------
@@ -163,9 +164,9 @@ def gen_text(rng, p, cfg):
         if ign and rng.random() < 0.5:
             pieces.append(rng.choice(samples[rng.choice(ign)]))
 
-    for _ in range(rng.randint(0, 3)):
+    for _ in range(rng.choice([0, 1, 2, 2, 3, 3, 4])):
         r = rng.random()
-        if r < 0.55:
+        if r < 0.65:
             ip = p.parse_interactive('')
             for _ in range(rng.randint(1, 6)):
                 acc = sorted(t for t in ip.accepts() if t != '$END' and t in samples)
@@ -178,16 +179,16 @@ def gen_text(rng, p, cfg):
                     break
                 pieces.append(rng.choice(samples[t]))
                 sep()
-        elif r < 0.8:
+        elif r < 0.85:
             for _ in range(rng.randint(1, 3)):
                 pieces.append(rng.choice(samples[rng.choice(sorted(samples))]))
                 sep()
         else:
             pieces.append(rng.choice(['z', '?', 'zz', '\n', ' ', 'a', '(', '#', '!']))
-        if rng.random() < 0.4:
-            pieces.append(rng.choice(['z', '?', ' ', '\n', '']))
+        if rng.random() < 0.5:
+            pieces.append(rng.choice(['z', '?', ' ', '\n', '', '#a', '\n\n']))
     text = ''.join(pieces)
-    return text[:rng.choice([8, 12, 16])]
+    return text[:rng.choice([8, 12, 16, 20])]
 
 
 # ------------------------------------------------------------------------------------------------
@@ -315,6 +316,48 @@ def observe_scan(p, text, a, b, whole):
     return dict(turns=turns, final=final, matches=matches, error=err)
 
 
+def independent_stream(p, text, m, b):
+    """the lexer / parser oracles at position m, obtained *outside* _scan by a driver of our own: every lexer
+    match from m on (ignored included) in lockstep with an interactive parser; for every token whether the feed
+    succeeded, whether '$END' is in choices() afterwards and whether feeding $END to a copy succeeds.
+    Stops like any LALR parse: at the first lexer error, feed error, or at the end of the window."""
+    from lark.utils import TextSlice
+    from lark.exceptions import UnexpectedInput
+    from lark.lexer import BasicLexer
+    raw, toks = [], []
+    orig_match = BasicLexer.match
+
+    def match(lexer, txt, pos):
+        res = orig_match(lexer, txt, pos)
+        if res is not None:
+            raw.append((pos, pos + len(res[0]), res[1], res[1] in lexer.ignore_types))
+        return res
+    BasicLexer.match = match
+    try:
+        ip = p.parse_interactive(TextSlice(text, m, b))
+        try:
+            for t in ip.lexer_thread.lex(ip.parser_state):
+                n_raw = len(raw)
+                rec = dict(type=t.type, s=t.start_pos, e=t.end_pos, ok=False, choice=False, trial=False)
+                toks.append(rec)
+                ip.feed_token(t)
+                rec['ok'] = True
+                if '$END' in ip.choices():
+                    rec['choice'] = True
+                    try:
+                        ip.copy(deepcopy_values=False).feed_eof(t)
+                        rec['trial'] = True
+                    except UnexpectedInput:
+                        pass
+                del raw[n_raw:]     # matches made by the trial / error paths are not part of the stream
+        except UnexpectedInput:
+            pass
+    finally:
+        BasicLexer.match = orig_match
+    # drop lexer matches made after the last yielded token by error-reporting paths (contextual fallback)
+    return raw, toks
+
+
 def start_positions(p, text, a, b):
     """independent recomputation of the search oracle: offsets in [a, b) at which some non-ignored terminal of
     the start state's lexer matches (one re.match per terminal and offset)"""
@@ -360,27 +403,37 @@ def tables_of(p, text, a, b, obs):
     starts = start_positions(p, text, a, b)
     streams, parser = [], []
     for t in obs['turns']:
-        fed = list(t['toks'])
+        raw, fed = independent_stream(p, text, t['m'], b)
+        # what _scan itself lexed and fed in this turn must be a prefix of the independent stream
+        seen = [(f['type'], f['s'], f['e'], f['ok'], f['choice'], f['trial']) for f in t['toks']]
+        ind = [(f['type'], f['s'], f['e'], f['ok'], f['choice'], f['trial']) for f in fed]
+        if seen != ind[:len(seen)]:
+            raise ValueError('tokens / parser outcomes observed inside _scan from %d %r differ from the independent '
+                             'lexer+parser run %r' % (t['m'], seen, ind))
+        if [r for r in t['raw']] != raw[:len(t['raw'])]:
+            raise ValueError('lexer matches observed inside _scan from %d differ from the independent run' % t['m'])
         stream = []
         k = 0
-        for (s, e, ty, ign) in t['raw']:
+        for (s, e, ty, ign) in raw:
             if ign:
                 stream.append((ids[ty], s, e, True))
             else:
                 if k >= len(fed):
-                    raise ValueError('non-ignored lexer match %r at %d was never fed' % (ty, s))
+                    break       # matched by the lexer after the parse had already failed (error reporting)
                 f = fed[k]
                 k += 1
                 if (f['s'], f['e']) != (s, e):
-                    raise ValueError('fed token %r [%s,%s) does not align with lexer match [%d,%d)'
+                    raise ValueError('token %r [%s,%s) does not align with lexer match [%d,%d)'
                                      % (f['type'], f['s'], f['e'], s, e))
                 stream.append((ids[f['type']], s, e, False))
         if k != len(fed):
-            raise ValueError('token fed without a lexer match')
+            raise ValueError('token produced without a lexer match')
         streams.append((t['m'], stream))
         tys = [ids[f['type']] for f in fed]
         for i, f in enumerate(fed):
-            parser.append((tys[:i + 1], (f['ok'], f['choice'], f['trial'])))
+            ent = (tys[:i + 1], (f['ok'], f['choice'], f['trial']))
+            if ent not in parser:     # identical observations are kept once; conflicting ones are all kept (Coq rejects them)
+                parser.append(ent)
     return nls, starts, streams, parser
 
 
@@ -562,15 +615,15 @@ def witness(cfg, text, a, b, whole, restrict):
 EXOTIC = [
     # F8: a greedy token crosses the end of the snippet that would parse
     dict(key=F8_KEY, grammar='start: A | AB "c"\nA: "a"\nAB: "ab"\n', text='abd', expect='miss'),
-    # F8b: an ignored terminal wins at match_start; the candidates under it are never tried
-    dict(key=F8b_KEY, grammar='start: A B | X "!"\nA: "a"\nB: "b"\nX: "x"\nCOMMENT: /x[a-z]*/\n%ignore COMMENT\n%ignore " "\n',
+    # F28: an ignored terminal wins at match_start; the candidates under it are never tried
+    dict(key=F28_KEY, grammar='start: A B | X "!"\nA: "a"\nB: "b"\nX: "x"\nCOMMENT: /x[a-z]*/\n%ignore COMMENT\n%ignore " "\n',
          text='xab ab', expect='miss'),
 ]
 
 
 def correspond(ctx):
     rng = ctx.rng
-    ngram = ctx.scale(150, 1500) * (3 if ctx.widen else 1)
+    ngram = ctx.scale(300, 3000) * (3 if ctx.widen else 1)
     cases, meta = [], []
     stats = {}
     built = 0
@@ -597,15 +650,23 @@ def correspond(ctx):
             else:
                 a = rng.randint(0, len(text))
                 b = rng.randint(a, len(text))
-            obs, tabs, terr, verdict = run_case(cfg, text, a, b, whole, general, stats)
+            st1 = {}
+            obs, tabs, terr, verdict = run_case(cfg, text, a, b, whole, general, st1)
+            if st1.get('unstable'):
+                stats['unstable_snippets_' + stream] = stats.get('unstable_snippets_' + stream, 0) + st1['unstable']
             nmatch = len(obs['matches'])
+            nshift = sum(1 for t in obs['turns'] if t['range'] and t['range'][0] != t['m'])
+            if nshift:      # outside the H_head class: the generators are not supposed to produce this
+                stats['head_shift_' + stream] = stats.get('head_shift_' + stream, 0) + nshift
             nfail = sum(1 for t in obs['turns'] if t['range'] is None)
             ntrial_fail = sum(1 for t in obs['turns'] for f in t['toks'] if f['choice'] and not f['trial'])
             ctx.count(stream, key=(cfg['grammar'], cfg['lexer'], cfg['use_bytes'], text, a, b),
                       nontrivial=(nmatch > 0 and nfail > 0), matches=min(nmatch, 4), lexer=cfg['lexer'],
                       input=('bytes' if cfg['use_bytes'] else 'str') + ('' if whole else '-slice'),
                       failed_turns=min(nfail, 6), end_trial_failed=min(ntrial_fail, 2),
-                      leading_ignored=int(any(t['range'] and t['range'][0] > t['m'] for t in obs['turns'])))
+                      ignored_inside_match=int(any(t['range'] and any(r[3] and t['range'][0] < r[0] < t['range'][1] for r in t['raw'])
+                                                   for t in obs['turns'])),
+                      newline_before_match=int(any(t['range'] and (t['snap'][2] or 1) > 1 for t in obs['turns'])))
             w = witness(cfg, text, a, b, whole, general)
             if verdict:
                 ctx.violation('property-oracle:' + verdict[0], w, True, verdict[1])
@@ -620,7 +681,7 @@ def correspond(ctx):
                                 turns=[(t['pos'], t['m'], t['range']) for t in obs['turns']]))
     for k, v in stats.items():
         ctx.histo.setdefault('generator', {})[k] = v
-    bad, errs = ctx.coq_bad_indices('c14', IMPORTS, 'check_case', cases, chunk=150)
+    bad, errs = ctx.coq_bad_indices('c14', IMPORTS, 'check_case', cases, chunk=250)
     for e in errs:
         ctx.violation('correspondence:coq-eval', {'error': e}, False, e[:300])
     for i in bad[:20]:
